@@ -59,7 +59,7 @@ Proof.
       * apply IH; [exact Hvd|]. unfold node_is_dir. rewrite Hgc. reflexivity.
       * cbn [sr_parent sr_child sr_err]. split; [intros p [= <-]; exact Hpd|]. split; [discriminate|].
         intros Ha. rewrite (check_permission_admin _ _ _ Ha) in Hcp. discriminate Hcp.
-    + destruct (pi_is_last pi1); cbn [sr_parent sr_child sr_err];
+    + destruct (pi_is_last pi1); [|destruct (v_os v)]; cbn [sr_parent sr_child sr_err];
         (split; [intros p [= <-]; exact Hpd|]); (split; [try discriminate; intros c0 _ [= <-]; congruence|reflexivity]).
     + cbv zeta. destruct (pi_is_last pi1 && slmode_eqb slm SlLstat).
       { cbn [sr_parent sr_child sr_err]. split; [intros p [= <-]; exact Hpd|]. split; [intros c0 _ [= <-]; congruence|reflexivity]. }
@@ -205,7 +205,7 @@ Section AdminCalls.
             else if has (to_open_mode flag) OpenCreateExcl then (s, inl (RFail EFileExists))
             else
               let d1 := if has (to_open_mode flag) OpenTruncate then [] else d in
-              let at_ := if has (to_open_mode flag) OpenAppend then Z.of_nat (length d1) else 0%Z in
+              let at_ := 0%Z in
               (with_heap s (upd (f_heap s) c (NFile d1 k i m)), inr (new_handle c vi (x :: name) at_ (to_open_mode flag)))
         | Some (NDir _ m) =>
             if has (to_open_mode flag) OpenCreateExcl then (s, inl (RFail EFileExists))
@@ -263,7 +263,7 @@ Section AdminCalls.
     set (rn := search_node s v n SlLstat) in *.
     destruct (_ && _); [cl0|]. destruct (_ && _); [cl0|].
     destruct (sr_parent ro) as [op|] eqn:Hop; [|cl0]. destruct (sr_child ro) as [oc|]; [|cl0].
-    destruct (sr_parent rn) as [np|] eqn:Hnp; [|cl0].
+    destruct (sr_parent rn) as [np|] eqn:Hnp; [|destruct (is_not_exist (sr_err rn)); cl0].
     rewrite (admin_perm_on_dir _ _ _ _ Ha (F1 _ eq_refl)), (admin_perm_on_dir _ _ _ _ Ha (G1 _ eq_refl)). cbn [negb]. rewrite andb_false_r.
     destruct (get (f_heap s) oc) as [[ch m|d k i m|t m]|].
     - destruct (_ && _).
@@ -283,7 +283,7 @@ Section AdminCalls.
     destruct (search_node_facts s v n SlLstat Hrd Hvd) as (G1 & G2 & G3 & G4). specialize (G3 Ha).
     set (rn := search_node s v n SlLstat) in *.
     destruct (negb (is_not_exist _)); [destruct (win v); cl0|]. destruct (negb (pi_is_last _)); [cl0|].
-    destruct (sr_parent rn) as [np|] eqn:Hnp; [|cl0].
+    destruct (sr_parent rn) as [np|] eqn:Hnp; [|destruct (is_not_exist (sr_err rn)); cl0].
     rewrite (admin_perm_on_dir _ _ _ _ Ha (G1 _ eq_refl)). cbn [negb].
     destruct (get (f_heap s) oc) as [[ch m|d k i m|t m]|]; cl0.
   Qed.
@@ -377,26 +377,27 @@ Section HandleCalls.
 
   Lemma f_read_clean n : clean_but None (snd (f_read s v f n)).
   Proof.
-    unfold f_read. destruct (hd_name f); [cl1|]. destruct (hd_node f); [|cl1].
+    unfold f_read. destruct (hd_name f); [cl1|]. destruct (hd_node f); [|cl1]. destruct (Z.leb n 0); [cl1|].
     destruct (file_of s _) as [[[[d k] i] m]|]; [|cl1]. destruct (negb _); [cl1|]. cbv zeta. destruct (Z.eqb _ 0); cl1.
   Qed.
 
   Lemma f_read_at_clean n off : clean_but None (f_read_at s v f n off).
   Proof.
-    unfold f_read_at. destruct (hd_name f); [cl1|]. destruct (hd_node f); [|cl1].
-    destruct (file_of s _) as [[[[d k] i] m]|]; [|cl1]. destruct (Z.ltb off 0); [cl1|]. destruct (negb _); [cl1|].
+    unfold f_read_at. destruct (Z.ltb off 0); [cl1|]. destruct (Z.leb n 0); [cl1|].
+    destruct (hd_name f); [cl1|]. destruct (hd_node f); [|cl1].
+    destruct (file_of s _) as [[[[d k] i] m]|]; [|cl1]. destruct (negb _); [cl1|].
     destruct (Z.ltb _ off); [cl1|]. cbv zeta. destruct (Z.ltb _ n); cl1.
   Qed.
 
   Lemma f_write_clean b : clean_but None (snd (f_write s v f b)).
   Proof.
     unfold f_write. destruct (hd_name f); [cl1|]. destruct (hd_node f); [|cl1].
-    destruct (file_of s _) as [[[[d k] i] m]|]; [|cl1]. destruct (negb _); cl1.
+    destruct (file_of s _) as [[[[d k] i] m]|]; [|cl1]. destruct (negb _); [cl1|]. destruct b; cl1.
   Qed.
 
   Lemma f_write_at_clean b off : clean_but None (snd (f_write_at s v f b off)).
   Proof.
-    unfold f_write_at. destruct (Z.ltb off 0); [cl1|]. destruct (hd_name f); [cl1|]. destruct (hd_node f); [|cl1].
+    unfold f_write_at. destruct (Z.ltb off 0); [cl1|]. destruct b; [cl1|]. destruct (hd_name f); [cl1|]. destruct (hd_node f); [|cl1].
     destruct (file_of s _) as [[[[d k] i] m]|]; [|cl1]. destruct (negb _); cl1.
   Qed.
 
@@ -410,7 +411,7 @@ Section HandleCalls.
 
   Lemma f_truncate_clean size : clean_but None (snd (f_truncate s v f size)).
   Proof.
-    unfold f_truncate. destruct (hd_name f); [cl1|]. destruct (Z.ltb size 0); [cl1|]. destruct (hd_node f); [|cl1].
+    unfold f_truncate. destruct (hd_name f); [cl1|]. destruct (hd_node f); [|cl1]. destruct (Z.ltb size 0); [cl1|].
     destruct (file_of s _) as [[[[d k] i] m]|]; [|cl1]. destruct (negb _); cl1.
   Qed.
 
